@@ -139,9 +139,45 @@ class Ctx:
     def build_ext(self):
         d = os.path.join(ROOT, "harness", "ext")
         sh("cp %s/go.sum %s/go.sum" % (REPO, d))
+        if REPO != "/repo":
+            sh("go mod edit -replace github.com/tinode/chat=%s" % REPO, cwd=d, env=GOENV)
         rc, out = sh("timeout 900 go build -o %s ." % os.path.join(BUILD, "ext"), cwd=d, env=GOENV)
         open(os.path.join(self.work, "ext_build.log"), "w").write(out)
         return rc == 0, out
+
+    def build_main(self, tags="verif"):
+        """Build the package-main test binary from /repo's working tree with the overlay
+        files of harness/overlay added virtually (nothing is written to /repo)."""
+        ov = {}
+        base = os.path.join(ROOT, "harness", "overlay")
+        for dp, _, fs in os.walk(base):
+            for f in fs:
+                if f.endswith(".go"):
+                    src = os.path.join(dp, f)
+                    ov[os.path.join(REPO, os.path.relpath(src, base))] = src
+        os.makedirs(BUILD, exist_ok=True)
+        ovp = os.path.join(BUILD, "overlay.json")
+        json.dump({"Replace": ov}, open(ovp, "w"), indent=1)
+        out_bin = os.path.join(BUILD, "maindrv.test")
+        rc, out = sh("timeout 1500 go test -c -o %s -vet=off -tags '%s' -overlay %s ." % (out_bin, tags, ovp),
+                     cwd=os.path.join(REPO, "server"), env=GOENV)
+        open(os.path.join(self.work, "main_build.log"), "w").write(out)
+        return rc == 0, out
+
+    def run_main_lines(self, prop, lines, timeout=3000):
+        fin = os.path.join(self.work, "main_in.txt")
+        fout = os.path.join(self.work, "main_out.txt")
+        open(fin, "w").write("\n".join(lines) + "\n")
+        if os.path.exists(fout):
+            os.remove(fout)
+        env = dict(GOENV, VERIF_PROP=prop, VERIF_IN=fin, VERIF_OUT=fout)
+        p = subprocess.run([os.path.join(BUILD, "maindrv.test"), "-test.run", "^TestVerifLines$", "-test.count=1"],
+                           stdout=subprocess.PIPE, stderr=subprocess.STDOUT, text=True, timeout=timeout, env=env,
+                           cwd=os.path.join(REPO, "server"))
+        out = open(fout).read().split("\n") if os.path.exists(fout) else []
+        if out and out[-1] == "":
+            out.pop()
+        return p.returncode, out, p.stdout
 
     def run_lines(self, cmd, lines, timeout=3000, env=None, cwd=None):
         inp = "\n".join(lines) + "\n"
